@@ -9,8 +9,19 @@
   every value (unbounded `Int`), every chain shape that satisfies the stated hypotheses.
 -/
 import RbModel.Lemmas.Gpos
+import RbModel.Gen.Gpos
 
 namespace RbModel.Gpos
+
+/-- The constants the model fixes are the crate's (regenerated from the compiled crate on every run):
+    the two attach types, and the fact the kern iterator's "marks are skipped" rests on — the GDEF mark
+    class bit of `glyph_props` is the `IGNORE_MARKS` lookup-flag bit and lies inside `IGNORE_FLAGS`. -/
+theorem C07_consts :
+    ATTACH_MARK = RbModel.Gen.Gpos.attachMark ∧ ATTACH_CURSIVE = RbModel.Gen.Gpos.attachCursive ∧
+    RbModel.Gen.Gpos.gpMark = RbModel.Gen.Gpos.ignoreMarks ∧
+    RbModel.Gen.Gpos.ignoreMarks &&& RbModel.Gen.Gpos.ignoreFlags = RbModel.Gen.Gpos.ignoreMarks ∧
+    RbModel.Gen.Gpos.gpBaseGlyph &&& RbModel.Gen.Gpos.ignoreMarks = 0 := by
+  decide
 
 /-! ## attachment propagation -/
 
